@@ -78,7 +78,7 @@ def run(ck, prog):
             ck.oblige('C03.kernel.y.upper.p%d' % prec, p, f(y + 2) <= 0, 'the root is below y + 2: the new ask reserve is not more than 2 base units below the curve point')
             ck.oblige('C03.kernel.y.lower.p%d' % prec, p, z3.And(y >= 2, f(y - 2) > 0), 'the root is not below y - 2')
             # vacuity guards: the converged path is reachable with realistic magnitudes, and a wrong quadratic is refuted
-            ck.expect_sat('C03.kernel.cover.p%d' % prec, p, z3.And(y > 10 ** 9, z3.Int('y_prev') > 10 ** 9, D > 10 ** 27, z3.Int('offer') > 10 ** 6))
+            ck.expect_sat('C03.kernel.cover.p%d' % prec, p, z3.And(z3.Int('offer_pool') == 10 ** 12, z3.Int('ask_pool') == 10 ** 12, z3.Int('offer') == 10 ** 9, amp == 100, D == 2 * 10 ** 12 * scale, z3.Int('y_prev') > 10 ** 9))
             g = lambda t: t * t + (bc - dc) * t - (cc + 10 ** 12 * t)
             r, _, _ = ck.solve(p.conds + [z3.Or(g(y + 2) <= 0, z3.And(y >= 2, g(y - 2) > 0))])
             ck.vac['twin'] = ck.vac.get('twin', 0) + 1
